@@ -35,8 +35,13 @@ const killMaxFileSize = 300000
 func killWorld(seed int64) *world {
 	rng := rand.New(rand.NewSource(seed))
 	w := &world{}
-	for _, n := range []int{0, 1, 50, 180, 300, 700, 2300, 64 << 10, 200 << 10, 1 << 20, 3 << 20, 4 << 20, 33, 4096} {
-		w.Uni = append(w.Uni, sto.FromBytes(randBytes(rng, n)))
+	for i, n := range []int{0, 1, 50, 180, 300, 700, 2300, 64 << 10, 200 << 10, 1 << 20, 3 << 20, 4 << 20, 33, 4096} {
+		data := randBytes(rng, n)
+		hash := map[int]string{2: "sha1", 5: "sha256", 8: "sha1", 13: "sha256"}[i]
+		if hash == "" {
+			hash = "sha224"
+		}
+		w.Uni = append(w.Uni, sto.Blob{Ref: sto.RefOf(hash, data), Data: data})
 	}
 	w.NH = len(w.Uni)
 	return w
@@ -243,7 +248,11 @@ func killRuns(r *ev.Run, kind, scratch string, kills int) {
 		dir = filepath.Join(scratch, fmt.Sprintf("kill-%s-%d", kind, dirNo))
 		os.MkdirAll(dir, 0o755)
 		o = &oracle{r: r, w: w, rng: r.Rand(fmt.Sprintf("kill-audit/%s/%d", kind, dirNo)),
-			present: map[blobRef][]byte{}, uncertain: map[blobRef]bool{}, attempted: map[blobRef]bool{}, rmInflight: map[blobRef]bool{}}
+			present: map[blobRef][]byte{}, uncertain: map[blobRef]bool{}, attempted: map[blobRef]bool{}, rmInflight: map[blobRef]bool{},
+			touched: map[blobRef]bool{}, inflightB: -1, crashOff: -1}
+		if packed {
+			o.packDir = dir
+		}
 		r.Count("real_kill_directories", 1)
 	}
 	fresh()
@@ -322,8 +331,19 @@ func killRuns(r *ev.Run, kind, scratch string, kills int) {
 			kindName = "kill-idle"
 		}
 		var x sto.Blob
+		o.inflightB, o.crashPack, o.crashOff = -1, "", -1
 		if j.inflight != nil {
 			x = w.Uni[j.inflight.B]
+			o.inflightB = j.inflight.B
+			if packed && j.inflight.Recv {
+				// the in-flight record starts behind everything this round's acknowledged ops appended:
+				// at or behind the pack sizes of the round's start
+				for n, sz := range sizes {
+					if n > o.crashPack {
+						o.crashPack, o.crashOff = n, sz
+					}
+				}
+			}
 			o.inflight(*j.inflight)
 			if j.inflight.Recv {
 				kindName = "kill-recv"
